@@ -104,6 +104,176 @@ theorem C20_loop_result (m : Mode) (get : TP → Int) (bump : TP → TP) (target
   have := Int.mul_nonneg (Int.natCast_nonneg k) hd
   omega
 
+/-- `to_calendar_date` / `to_ordinal_date` / `to_week_date` on a valid point. -/
+theorem toRep_spec (m : Mode) (k : Nat) (hk : k < 3) (p : TP) (hp : p.Strict m) :
+    ∃ q, toRep m k p = some q ∧ q.Strict m ∧ q.inst m = p.inst m ∧ q.tz = p.tz ∧ q.date.rep = k := by
+  obtain ⟨r, e, v, rr, n⟩ := convert_spec m k hk p.date hp.1.1
+  refine ⟨{ p with date := r }, by simp only [toRep, e, Option.map_some], ?_, ?_, rfl, rr⟩
+  · obtain ⟨⟨_, a1, a2, a3, a4, a5, a6, a7, a8⟩, a9⟩ := hp
+    exact ⟨⟨v, a1, a2, a3, a4, a5, a6, a7, a8⟩, a9⟩
+  · simp only [TP.inst, TP.secOfDay, n]
+
+/-- The field values a truncated point may carry in mode `m` (what its constructor's bounds check
+    admits: the year-less limits, after the repair of F8). -/
+def LegalTrunc (m : Mode) (t : Trunc) : Prop :=
+  (∀ x, t.ss = some x → 0 ≤ x ∧ x < 60) ∧ (∀ x, t.mi = some x → 0 ≤ x ∧ x < 60) ∧
+  (∀ x, t.hh = some x → 0 ≤ x ∧ x < 24) ∧ (∀ x, t.dow = some x → 1 ≤ x ∧ x ≤ 7) ∧
+  (∀ x, t.dom = some x → 1 ≤ x ∧ x ≤ (calOf m).maxDaysInMonth) ∧
+  (∀ x, t.doy = some x → 1 ≤ x ∧ x ≤ (calOf m).daysInYearLeap) ∧
+  (∀ x, t.week = some x → 1 ≤ x ∧ x ≤ (calOf m).maxWeeksInYear)
+
+/-- What every stage of `add_truncated` hands to the next one. -/
+def Stage (m : Mode) (p q : TP) : Prop := q.Strict m ∧ q.tz = p.tz ∧ p.inst m ≤ q.inst m
+
+theorem stage_trans (m : Mode) (a b c : TP) (h1 : Stage m a b) (h2 : Stage m b c) : Stage m a c :=
+  ⟨h2.1, by rw [h2.2.1, h1.2.1], by have := h1.2.2; have := h2.2.2; omega⟩
+
+/-- `add_truncated` as a chain of stages (the join points of the `do` block spelled out). -/
+theorem addTruncated_eq (m : Mode) (p : TP) (t : Trunc) :
+    addTruncated m p t =
+    (normalise24 m p).bind fun p0 =>
+    (match (match t.ss with
+      | some s => some s
+      | none => if t.hh.isSome ∨ (match t.hh, t.mi with | some _, none => some (0 : Int) | _, x => x).isSome
+                then some (0 : Int) else none) with
+      | some s => loopField m (·.ss) (fun q => { q with ss := q.ss + 1 }) s fuelTime p0
+      | none => some p0).bind fun p1 =>
+    (match (match t.hh, t.mi with | some _, none => some (0 : Int) | _, x => x) with
+      | some x => loopField m (·.mi) (fun q => { q with mi := q.mi + 1 }) x fuelTime p1
+      | none => some p1).bind fun p2 =>
+    (match t.hh with
+      | some x => loopField m (·.hh) (fun q => { q with hh := q.hh + 1 }) x fuelTime p2
+      | none => some p2).bind fun p3 =>
+    (match t.dow with
+      | some x => (toRep m 2 p3).bind (loopField m getDow (fun q => { q with date := bumpDay q.date 1 }) x fuelDow)
+      | none => some p3).bind fun p4 =>
+    (match t.dom with
+      | some x => (toRep m 0 p4).bind (loopField m getDom (fun q => { q with date := bumpDay q.date 1 }) x fuelDom)
+      | none => some p4).bind fun p5 =>
+    (match t.doy with
+      | some x => (toRep m 1 p5).bind (loopField m getDoy (fun q => { q with date := bumpDay q.date 1 }) x fuelDoy)
+      | none => some p5).bind fun p6 =>
+    (match t.week with
+      | some x => (toRep m 2 p6).bind (loopField m getWeek bumpWeek x fuelWeek)
+      | none => some p6) := by
+  obtain ⟨week, dow, dom, doy, hh, mi, ss, tz⟩ := t
+  unfold addTruncated
+  cases normalise24 m p with
+  | none => rfl
+  | some p0 =>
+    cases week <;> cases dow <;> cases dom <;> cases doy <;> cases hh <;> cases mi <;> cases ss <;> rfl
+
+/-- **The operation terminates**: for every valid full point `p` (24:00 included) and every
+    truncated point with legal field values - any combination of time fields and day designators,
+    in every mode - `add_truncated` returns (all its loops end within their fuel), and the result
+    is a valid date-time in `p`'s offset, not earlier than `p`. -/
+theorem C20_terminates (m : Mode) (p : TP) (hv : p.Valid m) (t : Trunc) (hl : LegalTrunc m t) :
+    ∃ q, addTruncated m p t = some q ∧ q.Strict m ∧ q.tz = p.tz ∧ p.inst m ≤ q.inst m := by
+  obtain ⟨l1, l2, l3, l4, l5, l6, l7⟩ := hl
+  obtain ⟨p0, e0, g0⟩ := normalise24_spec m p hv
+  have s0 : Stage m p p0 := ⟨g0.strict, g0.tz, by rw [g0.inst]; omega⟩
+  -- the defaulted minute and second
+  have hmi : ∀ x, (match t.hh, t.mi with | some _, none => some (0 : Int) | _, x => x) = some x → 0 ≤ x ∧ x < 60 := by
+    intro x hx
+    cases hh : t.hh <;> cases hm : t.mi <;> rw [hh, hm] at hx <;> simp only at hx
+    · cases hx
+    · cases hx; exact l2 _ hm
+    · cases hx; omega
+    · cases hx; exact l2 _ hm
+  rw [addTruncated_eq]
+  generalize hmidef : (match t.hh, t.mi with | some _, none => some (0 : Int) | _, x => x) = mi at hmi ⊢
+  have hss : ∀ x, (match t.ss with
+      | some s => some s
+      | none => if t.hh.isSome ∨ mi.isSome then some (0 : Int) else none) = some x → 0 ≤ x ∧ x < 60 := by
+    intro x hx
+    cases hs : t.ss with
+    | some s => rw [hs] at hx; cases hx; exact l1 _ hs
+    | none =>
+      rw [hs] at hx; simp only at hx
+      split at hx
+      · cases hx; omega
+      · cases hx
+  generalize hssdef : (match t.ss with
+      | some s => some s
+      | none => if t.hh.isSome ∨ mi.isSome then some (0 : Int) else none) = ss at hss ⊢
+  -- seconds
+  have st1 : ∃ p1, (match ss with
+      | some s => loopField m (·.ss) (fun q => { q with ss := q.ss + 1 }) s fuelTime p0
+      | none => some p0) = some p1 ∧ Stage m p0 p1 := by
+    cases ss with
+    | none => exact ⟨p0, rfl, g0.strict, rfl, Int.le_refl _⟩
+    | some s =>
+      obtain ⟨q, e, qs, qi, qt, _⟩ := loop_ss m p0 g0.strict s (hss s rfl)
+      exact ⟨q, e, qs, qt, by rw [qi]; have := Int.emod_nonneg (s - p0.ss) (show (60 : Int) ≠ 0 by omega); omega⟩
+  obtain ⟨p1, e1, s1⟩ := st1
+  have st2 : ∃ p2, (match mi with
+      | some x => loopField m (·.mi) (fun q => { q with mi := q.mi + 1 }) x fuelTime p1
+      | none => some p1) = some p2 ∧ Stage m p1 p2 := by
+    cases mi with
+    | none => exact ⟨p1, rfl, s1.1, rfl, Int.le_refl _⟩
+    | some x =>
+      obtain ⟨q, e, qs, qi, qt, _⟩ := loop_mi m p1 s1.1 x (hmi x rfl)
+      exact ⟨q, e, qs, qt, by rw [qi]; have := Int.emod_nonneg (x - p1.mi) (show (60 : Int) ≠ 0 by omega); omega⟩
+  obtain ⟨p2, e2, s2⟩ := st2
+  have st3 : ∃ p3, (match t.hh with
+      | some x => loopField m (·.hh) (fun q => { q with hh := q.hh + 1 }) x fuelTime p2
+      | none => some p2) = some p3 ∧ Stage m p2 p3 := by
+    cases hh : t.hh with
+    | none => exact ⟨p2, rfl, s2.1, rfl, Int.le_refl _⟩
+    | some x =>
+      obtain ⟨q, e, qs, qi, qt, _⟩ := loop_hh m p2 s2.1 x (l3 x hh)
+      exact ⟨q, e, qs, qt, by rw [qi]; have := Int.emod_nonneg (x - p2.hh) (show (24 : Int) ≠ 0 by omega); omega⟩
+  obtain ⟨p3, e3, s3⟩ := st3
+  have st4 : ∃ p4, (match t.dow with
+      | some x => (toRep m 2 p3).bind (loopField m getDow (fun q => { q with date := bumpDay q.date 1 }) x fuelDow)
+      | none => some p3) = some p4 ∧ Stage m p3 p4 := by
+    cases hd : t.dow with
+    | none => exact ⟨p3, rfl, s3.1, rfl, Int.le_refl _⟩
+    | some x =>
+      obtain ⟨r, er, rs, ri, rt, rr⟩ := toRep_spec m 2 (by omega) p3 s3.1
+      obtain ⟨q, e, qs, qi, qt, _⟩ := loop_dow m r rs rr x (l4 x hd)
+      refine ⟨q, by simp only [er, Option.bind_some, e], qs, by rw [qt, rt], ?_⟩
+      rw [qi, ri]; have := Int.emod_nonneg (x - getDow r) (show (7 : Int) ≠ 0 by omega); omega
+  obtain ⟨p4, e4, s4⟩ := st4
+  have st5 : ∃ p5, (match t.dom with
+      | some x => (toRep m 0 p4).bind (loopField m getDom (fun q => { q with date := bumpDay q.date 1 }) x fuelDom)
+      | none => some p4) = some p5 ∧ Stage m p4 p5 := by
+    cases hd : t.dom with
+    | none => exact ⟨p4, rfl, s4.1, rfl, Int.le_refl _⟩
+    | some x =>
+      obtain ⟨r, er, rs, ri, rt, rr⟩ := toRep_spec m 0 (by omega) p4 s4.1
+      obtain ⟨q, e⟩ := (C20_day_loops_terminate m r rs).1 rr x (l5 x hd)
+      obtain ⟨qs, qt, _, qi, _⟩ := C20_loop_result m getDom _ x 86400 0 fuelDom (stepOK_day m 0) (by omega) r q rs rr e
+      exact ⟨q, by simp only [er, Option.bind_some, e], qs, by rw [qt, rt], by rw [← ri]; exact qi⟩
+  obtain ⟨p5, e5, s5⟩ := st5
+  have st6 : ∃ p6, (match t.doy with
+      | some x => (toRep m 1 p5).bind (loopField m getDoy (fun q => { q with date := bumpDay q.date 1 }) x fuelDoy)
+      | none => some p5) = some p6 ∧ Stage m p5 p6 := by
+    cases hd : t.doy with
+    | none => exact ⟨p5, rfl, s5.1, rfl, Int.le_refl _⟩
+    | some x =>
+      obtain ⟨r, er, rs, ri, rt, rr⟩ := toRep_spec m 1 (by omega) p5 s5.1
+      obtain ⟨q, e⟩ := (C20_day_loops_terminate m r rs).2.1 rr x (l6 x hd)
+      obtain ⟨qs, qt, _, qi, _⟩ := C20_loop_result m getDoy _ x 86400 1 fuelDoy (stepOK_day m 1) (by omega) r q rs rr e
+      exact ⟨q, by simp only [er, Option.bind_some, e], qs, by rw [qt, rt], by rw [← ri]; exact qi⟩
+  obtain ⟨p6, e6, s6⟩ := st6
+  have st7 : ∃ p7, (match t.week with
+      | some x => (toRep m 2 p6).bind (loopField m getWeek bumpWeek x fuelWeek)
+      | none => some p6) = some p7 ∧ Stage m p6 p7 := by
+    cases hd : t.week with
+    | none => exact ⟨p6, rfl, s6.1, rfl, Int.le_refl _⟩
+    | some x =>
+      obtain ⟨r, er, rs, ri, rt, rr⟩ := toRep_spec m 2 (by omega) p6 s6.1
+      obtain ⟨q, e⟩ := (C20_day_loops_terminate m r rs).2.2 rr x (l7 x hd)
+      obtain ⟨qs, qt, _, qi, _⟩ := C20_loop_result m getWeek _ x 604800 2 fuelWeek (stepOK_week m) (by omega) r q rs rr e
+      exact ⟨q, by simp only [er, Option.bind_some, e], qs, by rw [qt, rt], by rw [← ri]; exact qi⟩
+  obtain ⟨p7, e7, s7⟩ := st7
+  have all := stage_trans m p p0 p7 s0 (stage_trans m p0 p1 p7 s1 (stage_trans m p1 p2 p7 s2
+    (stage_trans m p2 p3 p7 s3 (stage_trans m p3 p4 p7 s4 (stage_trans m p4 p5 p7 s5
+    (stage_trans m p5 p6 p7 s6 s7))))))
+  refine ⟨p7, ?_, all.1, all.2.1, all.2.2⟩
+  simp only [e0, Option.bind_some, e1, e2, e3, e4, e5, e6, e7]
+
 /-! ### time-of-day shapes: the result is the earliest match -/
 
 /-- A strict point `q'` in `p`'s offset, not earlier than `p`, with the given second: it is not
